@@ -108,3 +108,46 @@ def relaxation_query(terms, box, tol, default=None):
         T = z3.RealVal(str(Fraction(tol)))
         fs.append(z3.Or(acc > T, acc < -T))
     return z3.And(z3.And(*cons) if cons else z3.BoolVal(True), z3.Or(*fs) if fs else z3.BoolVal(False))
+
+
+# ---------------------------------------------------------------------------------------------
+# multiplication as an uninterpreted function (sound for `unsat`: if no interpretation of `mul`
+# separates two terms, real multiplication does not either).  Turns UF + nonlinear problems that
+# z3 cannot bound in time into QF_UFLRA, where congruence decides "same computation" questions.
+# ---------------------------------------------------------------------------------------------
+
+_MUL = z3.Function('uf_mul', z3.RealSort(), z3.RealSort(), z3.RealSort())
+
+
+def abstract_mul(e, cache=None):
+    if cache is None:
+        cache = {}
+    k = e.get_id()
+    if k in cache:
+        return cache[k]
+    if not z3.is_app(e) or e.num_args() == 0:
+        r = e
+    else:
+        ch = [abstract_mul(c, cache) for c in e.children()]
+        kind = e.decl().kind()
+        if kind == z3.Z3_OP_MUL:
+            consts = [c for c in ch if z3.is_rational_value(c) or z3.is_int_value(c)]
+            rest = sorted([c for c in ch if not (z3.is_rational_value(c) or z3.is_int_value(c))], key=lambda c: c.get_id())
+            if len(rest) <= 1:
+                r = e.decl()(*ch) if len(ch) > 1 else ch[0]
+            else:
+                acc = rest[0]
+                for c in rest[1:]:
+                    acc = _MUL(acc, c)
+                r = acc
+                for c in consts:
+                    r = c * r
+        elif kind == z3.Z3_OP_POWER and z3.is_rational_value(ch[1]) and _q(ch[1]).denominator == 1 and _q(ch[1]) >= 1:
+            acc = ch[0]
+            for _ in range(int(_q(ch[1])) - 1):
+                acc = _MUL(acc, ch[0])
+            r = acc
+        else:
+            r = e.decl()(*ch)
+    cache[k] = r
+    return r
